@@ -45,17 +45,18 @@ fn c09_caad_injective() {
     let a = ManuallyDrop::new(chunk_aad(s, i));
     let b = ManuallyDrop::new(chunk_aad(s2, i2));
     assert!(post_fixed_len(&a) && post_fixed_len(&b), "OBL:C09.caad.fixed_len");
-    assert!(
-        same_bytes(&a, &b) == (s == s2 && i == i2),
-        "OBL:C09.caad.injective"
-    );
-    // the two halves separately, in the property's words
+    // the two halves in the property's words first (Kani assumes an assertion after
+    // checking it, so the most specific obligation is the one that gets named)
     if i != i2 {
         assert!(!same_bytes(&a, &b), "OBL:C09.caad.index_bound");
     }
     if s != s2 {
         assert!(!same_bytes(&a, &b), "OBL:C09.caad.chunk_size_bound");
     }
+    assert!(
+        same_bytes(&a, &b) == (s == s2 && i == i2),
+        "OBL:C09.caad.injective"
+    );
     kani::cover!(s == s2 && i != i2, "COVER:replay_at_other_index");
     kani::cover!(s != s2 && i == i2, "COVER:other_chunk_size");
     kani::cover!(s == s2 && i == i2, "COVER:same_pair");
